@@ -23,13 +23,13 @@ type TV struct {
 }
 
 type SpecEnv struct {
-	vc    *VC
+	vc     *VC
 	params map[string]TV // entry values of parameters (for entry(x))
-	vars  map[string]TV
-	heap  *Heap
-	old   *Heap
-	inOld bool
-	depth int
+	vars   map[string]TV
+	heap   *Heap
+	old    *Heap
+	inOld  bool
+	depth  int
 }
 
 func (e *SpecEnv) with(name string, tv TV) *SpecEnv {
